@@ -327,4 +327,86 @@ def runEOld (e : Etcd) : List Op → List Out
   | [] => []
   | op :: r => (stepEOld e op).2 :: runEOld (stepEOld e op).1 r
 
+/-! ### etcd resource limits
+
+etcd rejects a request that is too large (`--max-request-bytes`, default 1.5 MiB; the client refuses
+to send more than 2 MiB) and a transaction with more than `--max-txn-ops` (default 128) operations.
+`InMemoryStore` has no such limits, so they are exactly where the two stores can part ways.
+
+* The only request of `EtcdStore` whose size grows with the STATE is the snapshot put of
+  `persistSnapshotLocked` (`json.Marshal` of every topic with every partition).  `size` is the byte
+  size of that request as a function of the topic table; when it exceeds `maxSnap` the conditional
+  put fails, `updateSnapshot` returns the error, the local copy keeps the mutation (until the next
+  `refreshSnapshotLocked`) and the etcd keys `mutate` already touched stay touched.
+* HEAD issues only one-operation transactions.  `oneTxn = true` models the variant in which
+  `deleteConsumerOffsets` removes all commits of the topic in ONE transaction (seeded change
+  C17-r3-1): with more than `maxTxnOps` commits the transaction is rejected, `mutate` fails after
+  `deleteTopicOffsets` already ran, nothing is persisted. -/
+
+structure Limits where
+  /-- `--max-txn-ops` -/
+  maxTxnOps : Nat
+  /-- largest snapshot request etcd accepts -/
+  maxSnap : Nat
+  /-- request bytes of the snapshot put, by topic table -/
+  size : List (Nat × Nat) → Nat
+
+def etcdCreateTopicL (L : Limits) (e : Etcd) (t : Nat) (n rf : Int) : Etcd × Out :=
+  let e := refresh e
+  let r := memCreateTopic e.loc t n rf
+  if r.2 = .ok then
+    if L.size r.1.topics ≤ L.maxSnap then (persist { e with loc := r.1 }, .ok)
+    else ({ e with loc := r.1 }, .errOther)
+  else (e, r.2)
+
+def etcdCreatePartitionsL (L : Limits) (e : Etcd) (t : Nat) (n : Int) : Etcd × Out :=
+  if t = 0 || n ≤ 0 then (e, .errInvalid) else
+  let e := refresh e
+  match tparts e.loc.topics t with
+  | none => (e, .errUnknown)
+  | some cur =>
+    if n ≤ (cur : Int) then (e, .errInvalid) else
+    let r := memCreatePartitions e.loc t n
+    if r.2 = .ok then
+      if L.size r.1.topics ≤ L.maxSnap then
+        let e := persist { e with loc := r.1 }
+        let newKeys := (List.range (n.toNat - cur)).map fun i => ((t, ((cur + i : Nat) : Int)), ())
+        ({ e with kvPst := newKeys.foldl (fun acc k => aput acc k.1 k.2) e.kvPst }, .ok)
+      else ({ e with loc := r.1 }, .errOther)     -- returns before the partition-state puts
+    else (e, r.2)
+
+def etcdDeleteTopicL (L : Limits) (oneTxn : Bool) (e : Etcd) (t : Nat) : Etcd × Out :=
+  let e := refresh e
+  if (tparts e.loc.topics t).isNone then (e, .errUnknown) else
+  let r := memDeleteTopic e.loc t
+  if r.2 = .ok then
+    -- `deleteTopicOffsets`: one range delete
+    let e1 := { e with loc := r.1,
+                       kvOff := e.kvOff.filter (fun x => x.1.1 ≠ t),
+                       kvCfg := e.kvCfg.filter (fun x => x.1 ≠ t),
+                       kvPst := e.kvPst.filter (fun x => x.1.1 ≠ t) }
+    -- `deleteConsumerOffsets`: one delete per key (HEAD) or one transaction with one op per key
+    if oneTxn && (e.kvCoff.filter (fun x => x.1.2.1 = t)).length > L.maxTxnOps then (e1, .errOther)
+    else
+      let e2 := { e1 with kvCoff := e.kvCoff.filter (fun x => x.1.2.1 ≠ t) }
+      if L.size r.1.topics ≤ L.maxSnap then (persist e2, .ok) else (e2, .errOther)
+  else (e, r.2)
+
+def stepEL (L : Limits) (oneTxn : Bool) (e : Etcd) : Op → Etcd × Out
+  | .createTopic t n rf => etcdCreateTopicL L e t n rf
+  | .deleteTopic t => etcdDeleteTopicL L oneTxn e t
+  | .createPartitions t n => etcdCreatePartitionsL L e t n
+  | op => stepE e op
+
+def runEL (L : Limits) (oneTxn : Bool) (e : Etcd) : List Op → List Out
+  | [] => []
+  | op :: r => (stepEL L oneTxn e op).2 :: runEL L oneTxn (stepEL L oneTxn e op).1 r
+
+/-- The limits of the embedded etcd the harness runs (defaults): 128 operations per transaction,
+1.5 MiB per request; the snapshot costs ≈ 126 bytes per partition and ≈ 90 per topic
+(measured: 25 000 partitions = 3 133 347 request bytes), plus ≈ 400 bytes of brokers / envelope. -/
+def etcdDefaults : Limits :=
+  { maxTxnOps := 128, maxSnap := 1572864,
+    size := fun ts => 400 + ts.foldl (fun acc e => acc + 90 + 126 * e.2) 0 }
+
 end KafVerif.MetaStore
